@@ -544,13 +544,19 @@ func (x *TopicsIndex) scanMessages(filter string, d int, n *particle, pks []pack
 	}
 
 	key, hasNext := isolateParticle(filter, d)
+	if key == "#" && n.retainPath != "" { // a trailing # also matches the parent level, as per 4.7.1.2
+		if pk, ok := x.Retained.Get(n.retainPath); ok {
+			pks = append(pks, pk)
+		}
+	}
+
 	if key == "+" || key == "#" || d == -1 {
 		for _, adjacent := range n.particles.getAll() {
-			if d == 0 && adjacent.key == SysPrefix {
+			if d == 0 && strings.HasPrefix(adjacent.key, "$") { // don't match $ topics with top level wildcards [MQTT-4.7.1-1] [MQTT-4.7.1-2]
 				continue
 			}
 
-			if !hasNext {
+			if !hasNext && key == "+" {
 				if adjacent.retainPath != "" {
 					if pk, ok := x.Retained.Get(adjacent.retainPath); ok {
 						pks = append(pks, pk)
